@@ -6,8 +6,9 @@ EXTENDS Correlation, Json, IOUtils, TLC
 VARIABLE x
 Obs == ndJsonDeserialize(IOEnv.VERIF_OBS)
 PREC == <<"not", "and", "or">>
-Rules == <<[name |-> <<114,49>>, uid |-> <<>>], [name |-> <<114,50>>, uid |-> <<>>], [name |-> <<>>, uid |-> <<>>], [name |-> <<114,52>>, uid |-> <<>>]>>
-RuleTable(o) == [k \in 1..4 |-> [name |-> Rules[k].name, uid |-> o.uids[k]]]
+Rules == <<[name |-> <<114,49>>, uid |-> <<>>], [name |-> <<114,50>>, uid |-> <<>>], [name |-> <<>>, uid |-> <<>>], [name |-> <<114,52>>, uid |-> <<>>],
+          [name |-> <<114,53>>, uid |-> <<>>]>>      \* r5: a correlation rule over r1
+RuleTable(o) == [k \in 1..5 |-> [name |-> Rules[k].name, uid |-> o.uids[k]]]
 RenMap(B) == IF B.pipe = "rename"
              THEN <<(<<(<<103,49>>), (<<71,49>>)>>), (<<(<<102,105,101,108,100,65>>), (<<70,65>>)>>),
                     (<<(<<102,105,101,108,100,88>>), (<<70,88>>)>>), (<<(<<102>>), (<<70>>)>>)>>
@@ -24,15 +25,22 @@ Clause(o) ==
     ELSE LET q == o.ret.out[Len(o.ret.out)] IN
     IF ~(Len(q) >= 2 /\ q[1] = 60 /\ q[Len(q)] = 62) THEN "CorrelationQueryFinalised"
     ELSE LET body == SubSeq(q, 2, Len(q) - 1)
-             parts == SplitAt(body, 30)
              rules == RuleTable(o)
              map == RenMap(B)
+             \* the search part may itself contain a whole correlation query (a referred correlation rule) with
+             \* record separators of its own: it is taken off by its expected text, the rest is split
+             S == Search(c, rules, o.alone, B, map)
+             Ty == Typing(c, rules, o.alone, B)
+             sOk == HasPrefix(body, S \o <<30>>)
+             tOk == sOk /\ HasPrefix(Drop(body, Len(S) + 1), Ty \o <<30>>)
+             parts == IF tOk THEN <<S, Ty>> \o SplitAt(Drop(body, Len(S) + Len(Ty) + 2), 30)
+                      ELSE IF sOk THEN <<S>> \o SplitAt(Drop(body, Len(S) + 1), 30) ELSE SplitAt(body, 30)
          IN
-         IF Len(parts) # 4 THEN "QueryUnreadable"
-         ELSE IF parts[1] # Search(c, rules, o.alone, B, map) THEN
+         IF ~sOk THEN
               (IF \E k \in 1..Len(c.refs) : ~IsSubstr(RuleId(rules[c.refs[k]]), parts[1]) /\ Len(c.refs) > 1 THEN "TaggedWithNameOrId"
                ELSE "SubqueriesInRefOrder")
-         ELSE IF parts[2] # Typing(c, rules, o.alone, B) THEN "TypingPhase"
+         ELSE IF ~tOk THEN "TypingPhase"
+         ELSE IF Len(parts) # 4 THEN "QueryUnreadable"
          ELSE IF parts[3] # Aggregate(c, rules, B, map) THEN
               (LET a == SplitAt(parts[3], 29) w == SplitAt(Aggregate(c, rules, B, map), 29) IN
                IF Len(a) # 6 THEN "QueryUnreadable"
